@@ -198,6 +198,19 @@ func genC04(seed uint64, withSpec bool) *Scenario {
 		default:
 			op = specOp(r)
 		}
+		if r.Chance(40) {
+			// revealer: members required but absent, no default anywhere: leftover "created from its default" bookkeeping,
+			// a stale required list or a stale property map shows as a wrong verdict
+			req := []any{pick(r, propNames)}
+			if r.Chance(500) {
+				req = append(req, pick(r, propNames))
+			}
+			inst := M{}
+			if r.Chance(400) {
+				inst[pick(r, propNames)] = 1
+			}
+			op = Op{Kind: pick(r, []string{KAgainst, KAgainst, KSchemaRec}), Schema: js(M{"type": "object", "required": req}), Data: js(inst), OrderSeed: orderSeedFor(r)}
+		}
 		if i == floodAt {
 			op = Op{Kind: KFlood, Str: "fl_", LL: pick(r, []int{140, 300})}
 		}
